@@ -384,9 +384,11 @@ func TestFrames(t *testing.T) {
 	n := raw.EnvInt("VERIF_N", 40)
 	seed := int64(raw.EnvInt("VERIF_SEED", 1))
 	frames, nontrivial, records := 0, 0, 0
-	for ci := 0; ci < n; ci++ {
+	nviol := 0
+	for ci := 0; ci < n && nviol < 12; ci++ { // a broken encoder fails every request of a family: a dozen reports are enough
 		c := gen(seed*100000 + int64(ci))
 		viol := func(key, what string) {
+			nviol++
 			js, _ := json.Marshal(c)
 			raw.Emit(map[string]any{"kind": "viol", "key": key, "what": what + " (case " + string(js) + ")", "case": ci})
 		}
@@ -416,7 +418,8 @@ func TestFrames(t *testing.T) {
 			t.Fatal(err)
 		}
 		opts := []kgo.Opt{kgo.SeedBrokers(cl.ListenAddrs()...), kgo.DisableClientMetrics(), kgo.RecordPartitioner(kgo.ManualPartitioner()), kgo.BrokerMaxWriteBytes(c.MaxWrite),
-			kgo.ProducerBatchMaxBytes(c.MaxBatch), kgo.ManualFlushing(), kgo.MaxBufferedRecords(1 << 20)}
+			kgo.ProducerBatchMaxBytes(c.MaxBatch), kgo.ManualFlushing(), kgo.MaxBufferedRecords(1 << 20),
+			kgo.RecordRetries(4)} // a batch the broker keeps refusing (CORRUPT_MESSAGE is retriable) fails its records instead of being retried for the whole deadline
 		if c.ClientID > 0 {
 			opts = append(opts, kgo.ClientID(strings.Repeat("c", c.ClientID)))
 		} else {
